@@ -194,8 +194,8 @@ PROPERTIES = {
     "C14": dict(G_HTTPGEN,
                 overlay={"internal/httpgen/zz_verif_c12_common.go": "harness/c12/c12_common.go",
                          "internal/httpgen/zz_verif_c14.go": "harness/c14/c14_codecs.go"},
-                harnesses=[dict(func="VerifC14CodecFiles", reach=["C14/compared", "C14/no-service", "C14/kf-unwrap"], quick=dict(budget=300), thorough=dict(budget=900))],
-                bounds_text={"quick": "one file, with or without a service, holding one message per codec feature (int64 NUMBER singular+repeated, partially annotated enum, nullable, empty_behavior x3, timestamp_format x3, bytes_encoding x4, flatten+prefix, discriminated oneof flattened or not with custom oneof_value, root unwrap); field names, JSON names (independent of the names), prefixes, discriminators and custom values symbolic strings <= 3; both generators run in full and their emission traces are compared line by line"},
+                harnesses=[dict(func="VerifC14CodecFiles", reach=["C14/compared", "C14/no-service", "C14/kf-unwrap", "C14/nested"], quick=dict(budget=300), thorough=dict(budget=900))],
+                bounds_text={"quick": "one file, with or without a service, holding one message per codec feature, declared at top level or nested in an un-annotated message (int64 NUMBER singular+repeated, partially annotated enum, nullable, empty_behavior x3, timestamp_format x3, bytes_encoding x4, flatten+prefix, discriminated oneof flattened or not with custom oneof_value, root unwrap); field names, JSON names (independent of the names), prefixes, discriminators and custom values symbolic strings <= 3; both generators run in full and their emission traces are compared line by line"},
                 assumptions=["GoIdent operands are rendered by the recording stub as <import path>.<name> for both generators alike",
                              "annotated types defined in other files of the run and plugin-order effects on the file system are not part of this check"]),
     "C15": dict(G_HTTPGEN, replay_repeat=12, load_pkgs=["./internal/httpgen", "./cmd/protoc-gen-openapiv3"],
@@ -277,7 +277,7 @@ PROPERTIES = {
                           "internal/httpgen/zz_verif_c20t.go": "harness/c20/c20_mock_tree.go"},
                  harnesses=[dict(func="VerifC20MockTyping", reach=["C20/typing/decided", "C20/typing/cardinality", "C20/typing/width"], quick=dict(budget=200), thorough=dict(budget=600)),
                             dict(func="VerifC20MockMapTypes", reach=["C20/map/decided"], quick=dict(budget=100), thorough=dict(budget=300)),
-                            dict(func="VerifC20MockTree", reach=["C20/tree/decided"], quick=dict(budget=100), thorough=dict(budget=300))]),
+                            dict(func="VerifC20MockTree", reach=["C20/tree/decided", "C20/tree/examples"], quick=dict(budget=100), thorough=dict(budget=300))]),
             dict(mode="E", replay_repeat=10,  # the native mock draws its example with the real math/rand
                  schemas=[dict(name="mock", run="go,go-http", param="paths=source_relative;go-http:generate_mock=true")],
                  load_pkgs=["./gen/mock"], pkgpath="verifmod/gen/mock", test_pkg="./gen/mock", test_pkgname="mock", init=[MOD + "/http", "verifmod/gen/mock"],
